@@ -64,6 +64,21 @@ RULESETS = {
     "layernorm": _layer_norm.layer_normalization_rules,
     "rmsnorm": _rms_normalization.rms_normalization_rules,
 }
+
+
+def _make_custom_rules():
+    """Rule objects that live as long as the child process (what a user module holds at import time)."""
+    from onnxscript.rewriter import pattern
+
+    def subrelu(op, x, y):
+        return op.Relu(op.Sub(x, y))
+
+    asfn = pattern.RewriteRule(subrelu, lambda op, x, y: op.SubRelu(x, y, _domain="vf.c14.fused"), as_function=True, name="vf_c14_asfn")
+    plain = pattern.RewriteRule(subrelu, lambda op, x, y: op.Max(op.Sub(x, y), op.Sub(x, x)), name="vf_c14_plain")
+    return {"asfn": asfn, "plain": plain}
+
+
+CUSTOM_RULES = _make_custom_rules()
 _ORIG_BUILDER = _pattern_ir._pattern_builder
 _ORIG_EVALUATOR = evaluator.default()
 
@@ -204,6 +219,8 @@ def op_model(t):
     if api == "rewrite":
         rules = RULESETS[t.get("rules", "default")]
         return ser(onnxscript.rewriter.rewrite(m, rules) if rules is not None else onnxscript.rewriter.rewrite(m))
+    if api == "rewrite_custom":
+        return ser(onnxscript.rewriter.rewrite(m, [CUSTOM_RULES[t["rule"]]]))
     if api == "fold":
         im = ir.serde.deserialize_model(m)
         res = SHARED_FOLD(im)
@@ -232,7 +249,7 @@ class _Rec:
 def run_history_op(h, i):
     """-> outcome label.  Repository exceptions are part of the history, never errors."""
     name = h["h"]
-    if name not in gen.HISTORY_OPS:
+    if name not in gen.HISTORY_OPS and name not in gen.PLACED_OPS:
         raise ValueError(f"unknown history op {name}")
     try:
         if name == "tr_ok":
